@@ -786,10 +786,11 @@ def _reparent_children(tt, old_parent, new_parent):
 
 
 def _reparent_transform_children(tt, old_parent, new_parent):
-    by_parent = tt.by_parent()
-    for child in by_parent[old_parent]:
+    # by_parent() only has entries for parents that have children
+    children = tt.by_parent().get(old_parent, ())
+    for child in children:
         tt.adjust_path(tt.final_name(child), new_parent, child)
-    return by_parent[old_parent]
+    return children
 
 
 def new_by_entry(path, tt, entry, parent_id, tree):
